@@ -21,8 +21,9 @@ WARN_KIND = {'StoryNotFoundWarning': 'story', 'ItemNotFoundWarning': 'item', 'Du
 class MergeFlow(Engine):
     """Interprets RunningOrder.__add__(ro, msg) for one message class and evaluates the rules online."""
 
-    def __init__(self, prog, cname: str, summaries=None):
+    def __init__(self, prog, cname: str, summaries=None, envelope_only: bool = False):
         super().__init__(prog, entry=f'{cname}.merge', summaries=summaries)
+        self.envelope_only = envelope_only
         self.cname = cname
         self.role = schema.ROLES.get(cname, ('UNKNOWN', 'ro', None))
         self.sites: Dict[str, set] = {}
@@ -157,6 +158,14 @@ class MergeFlow(Engine):
             st.mon['sym:delta'] = m
 
     def on_gc(self, st: State, dead):
+        hits = st.mon.get('sym:hits')
+        if hits:
+            for sym in [s for s in hits if s in dead]:
+                func, cons = hits[sym]
+                fd = Finding('DELETE-REMOVES', func, cons, 'a named element was found but is not removed by the delete merge',
+                             '?', 0, self.entry, self.witness(st))
+                self.findings.setdefault(fd.key, fd)
+            st.mon['sym:hits'] = {k: v for k, v in hits.items() if k not in dead}
         m = st.mon.get('sym:delta')
         if m:
             dd = set(st.mon.get('dead_delta') or ())
@@ -246,6 +255,11 @@ class MergeFlow(Engine):
 
     def on_remove(self, st, node, parent, node_):
         self.count('remove', st, node)
+        hits = st.mon.get('sym:hits')
+        if hits and isinstance(node_, Ref) and node_.sym in hits:
+            hits = dict(hits)
+            del hits[node_.sym]
+            st.mon['sym:hits'] = hits
         if self.role[0] == 'META' and isinstance(node_, Ref) and node_.kind == 'elem':
             ne = st.get(node_.sym)
             if ne.prov == 'RO' and ne.tag == 'mosExternalMetadata' and node_.sym not in (st.mon.get('sym:schemacmp') or {}):
@@ -442,6 +456,10 @@ class MergeFlow(Engine):
         if isinstance(id, NoneV) and mode == 'wildcard':
             self.find_('WILDCARD', st, node, cons,
                        'the ID operand may be None (blank or absent reference) and the lookup then selects the first child of that tag')
+        if result is not None and self.role[0] == 'DELETE' and tag == self.role[1]:
+            hits = dict(st.mon.get('sym:hits') or {})
+            hits[result.sym] = (func, cons_key)
+            st.mon['sym:hits'] = hits
         if result is None and id is not None and not again:
             kind = tag if tag in ('story', 'item') else 'other'
             st.mon['pending'] = self.pending(st) | {(kind, func, cons_key)}
@@ -511,7 +529,9 @@ class MergeFlow(Engine):
 
     # ------------------------------------------------------- id enumeration
     def on_find(self, st, node, parent, tag, result, path):
-        if isinstance(tag, str) and st.frame.func is not None and st.frame.func.name == '__add__' and st.get(parent.sym).origin[0] == 'root':
+        if isinstance(tag, str) and st.get(parent.sym).origin[0] == 'root' and st.get(parent.sym).prov == 'RO' \
+                and any(f.func is not None and f.func.name == '__add__' for f in st.frames) \
+                and not any(f.func is not None and f.func.name == 'merge' for f in st.frames):
             self.guard_tags.add(tag)
         if path or not isinstance(tag, str) or tag not in schema.ID_TAGS:
             return
@@ -607,7 +627,7 @@ class MergeFlow(Engine):
     # --------------------------------------------------------------- driver
     def run(self):
         add = self.prog.func('RunningOrder.__add__')
-        entries = merge_entries(self, self.cname)
+        entries = merge_entries(self, self.cname, envelope_only=self.envelope_only)
         for ro, msg, st in entries:
             self.ro_root = st.get(ro.sym).get('_xml')
             for v, s in self.call_function(add, [msg], {}, st, None, self_val=ro):
@@ -654,6 +674,10 @@ class MergeFlow(Engine):
         # normal return
         if not (isinstance(v, Ref) and v == ro):
             self.find_at_merge('RETURNS-RO', f'return {self.describe(v, s)}', 'merge must return the running order it was given')
+        for sym, (func, cons) in (s.mon.get('sym:hits') or {}).items():
+            fd = Finding('DELETE-REMOVES', func, cons, 'a named element was found but is not removed by the delete merge',
+                         '?', 0, self.entry, self.witness(s))
+            self.findings.setdefault(fd.key, fd)
         for p in sorted(self.pending(s)):
             k, func, cons = p
             fd = Finding('MISS-REPORTED', func, cons,
